@@ -52,6 +52,17 @@ def _to_microseconds(delta: timedelta) -> int:
     )
 
 
+def _total_microseconds(delta: timedelta) -> int:
+    # total_seconds() as an exact integer: float seconds lose
+    # the microsecond for values beyond 2**53 microseconds
+    us = (
+        timedelta.days.__get__(delta) * SECONDS_PER_DAY
+        + timedelta.seconds.__get__(delta)
+    ) * US_PER_SECOND + timedelta.microseconds.__get__(delta)
+
+    return abs(us) if isinstance(delta, AbsoluteDuration) else us
+
+
 class Duration(timedelta):
     """
     Replacement for the standard timedelta class.
@@ -346,7 +357,9 @@ class Duration(timedelta):
 
     def __add__(self, other: timedelta) -> Self:
         if isinstance(other, timedelta):
-            return self.__class__(seconds=self.total_seconds() + other.total_seconds())
+            return self.__class__(
+                microseconds=_total_microseconds(self) + _total_microseconds(other)
+            )
 
         return NotImplemented
 
@@ -354,7 +367,9 @@ class Duration(timedelta):
 
     def __sub__(self, other: timedelta) -> Self:
         if isinstance(other, timedelta):
-            return self.__class__(seconds=self.total_seconds() - other.total_seconds())
+            return self.__class__(
+                microseconds=_total_microseconds(self) - _total_microseconds(other)
+            )
 
         return NotImplemented
 
@@ -376,7 +391,7 @@ class Duration(timedelta):
             return self.__class__(
                 years=self._years * other,
                 months=self._months * other,
-                seconds=self._total * other,
+                microseconds=self._to_microseconds() * other,
             )
 
         if isinstance(other, float):
